@@ -319,6 +319,9 @@ func (s *Sched) Run(done func() bool) error {
 		e = heap.Pop(&s.h).(*ev)
 		s.hmu.Unlock()
 		s.Steps++
+		if s.Steps&1023 == 0 {
+			Beat() // progress the real-time watchdog can see
+		}
 		e.run()
 	}
 }
